@@ -26,6 +26,11 @@ LEVEL_TEXT = (
     "such as +=, for, while, assert, and/or/not) with holes filled from a 12-expression and a 10-condition menu is "
     "translated under 4 renamings and evaluated on a 36-point grid containing all literals used in conditions. "
     "Verdicts: refused / sound / unsound; only unsound is a violation."
+    " Added: statements skipped as 'no influence', local imports that shadow module names, locals named like "
+    "module constants, statement kinds that rebind an already bound name (annotated, walrus, chained, "
+    "unpacking, nested def, augmented), comparison chains with mixed operators, roots / fractional powers of "
+    "squares, a helper re-bound between two translations, and every function of the shipped library mxlpy.fns "
+    "under every rotation of its own parameter names. "
 )
 LEVEL_NOTE = "trusted: CPython as the semantics of the function, sympy's evaluation of the returned expression (subs/evalf or lambdify cross-checked), the finite grid"
 RULE = (
